@@ -210,4 +210,4 @@ def strategy(tier):
 
 
 def budget(tier):
-    return {"examples": 600, "shards": 1} if tier == "quick" else {"examples": 8000, "shards": 16}
+    return {"examples": 1500, "shards": 1} if tier == "quick" else {"examples": 8000, "shards": 16}
